@@ -273,6 +273,11 @@ pub fn run(cfg: &Cfg, col: &mut Collector) {
         if img.words.is_empty() || img.words.len() > 40 || img.origin() as usize + img.words.len() > 0xFDF0 {
             continue;
         }
+        // (a HALT as first word makes the debugger announce it before the first command: the
+        // expected transcript below has no room for that line)
+        if img.words[0] & 0xF0FF == 0xF025 {
+            continue;
+        }
         let rendered = render(&p, &Layout::random(&mut rng), &mut rng);
         let texts: Vec<J> = (0..img.words.len())
             .map(|k| {
